@@ -35,6 +35,20 @@ def impl_main():
     from corr.ctors import sample
     events = []
     orig_unmarshall = SCSICommand.unmarshall
+    # a call that allocates gigabytes or does not come back is an outcome ("exn:MemoryError" / "exn:Budget"), not a hung driver
+    import resource
+    import signal
+    try:
+        resource.setrlimit(resource.RLIMIT_AS, (3 << 30, 3 << 30))
+    except Exception:  # noqa
+        pass
+
+    class Budget(Exception):
+        pass
+
+    def on_alarm(signum, frame):
+        raise Budget()
+    signal.signal(signal.SIGALRM, on_alarm)
 
     def spy_unmarshall(self, **kw):
         events.append("U")
@@ -70,7 +84,11 @@ def impl_main():
         kw = {k: v[1] for k, v in c["kw"]}
         r = dict()
         try:
-            cmd = getattr(s, c["method"])(*args, **kw)
+            signal.setitimer(signal.ITIMER_REAL, 5.0)
+            try:
+                cmd = getattr(s, c["method"])(*args, **kw)
+            finally:
+                signal.setitimer(signal.ITIMER_REAL, 0)
             events.append("R")
             r["outcome"] = "returned"
             r["n_exec"] = len(dev.log)
